@@ -122,7 +122,7 @@ Proof.
 Qed.
 
 Lemma stream_E k : forall ctx l vs, sl_stream ts k ctx l = Some vs -> BY l ->
-  forall tab r acc m, INV tab ctx -> N.of_nat (length ctx) < two63 -> PRE2 ts tot (r_next_inner ts) tab r l [] [] -> RIO r ->
+  forall tab r acc m, INV tab ctx -> ctx_size ctx < two63 -> PRE2 ts tot (r_next_inner ts) tab r l [] [] -> RIO r ->
   exists r' toks tab', traverse_loop ts (lcost vs + m) r 0 acc = traverse_loop ts m r' 0 (rev toks ++ acc) /\
                        map proj_tok toks = flat_map (tsp_value None []) vs /\ PRE2 ts tot (r_next_inner ts) tab' r' [] [] [].
 Proof.
@@ -140,9 +140,10 @@ Proof.
     destruct (sl_value ts (S k) ctx (tag :: r0)) as [[[v|] rest']|] eqn:E; try discriminate.
     - unfold GATE, lst_gate in H. destruct (lst_like v) eqn:Ell.
       + (* a local symbol table *)
-        destruct (is_lst v) as [fs|] eqn:Eis; [|discriminate]. destruct (lst_ok ctx fs) eqn:Eok; [|discriminate].
+        destruct (is_lst v) as [fs|] eqn:Eis; [|discriminate]. destruct (apply_lst ctx fs) as [ctx'|] eqn:Eap; [|discriminate].
+        destruct (lst_ok fs ctx') eqn:Eok; [|discriminate].
         destruct (is_lst_shape v fs Eis) as (ys & ->).
-        destruct (lst3 ts Hts tot Htot tab ctx k r tag r0 ys fs rest' Hinv HTC Hb E Ell Eok P) as (tab' & Hinv' & Hsz' & P' & Hbr).
+        destruct (lst3 ts Hts tot Htot tab ctx k r tag r0 ys fs rest' Hinv HTC Hb E Ell ctx' Eap Eok P) as (tab' & Hinv' & Hsz' & P' & Hbr).
         exact (IH _ rest' vs H Hbr tab' r acc m Hinv' Hsz' P' Rio).
       + destruct (sl_stream ts k ctx rest') as [vs'|] eqn:E2; [|discriminate].
         inversion H; subst vs.
